@@ -54,10 +54,14 @@ type verifRT struct {
 	delivered int
 	faults    int
 	chunked   bool // requests may arrive without a declared length
+	reliable  bool // no faults
 }
 
 func (t *verifRT) RoundTrip(req *http.Request) (*http.Response, error) {
-	k := verifapi.Choose(fmt.Sprint("transport", t.attempts), 3)
+	k := 0
+	if !t.reliable {
+		k = verifapi.Choose(fmt.Sprint("transport", t.attempts), 3)
+	}
 	t.attempts++
 	if k == 1 {
 		t.faults++
@@ -160,5 +164,52 @@ func VerifC17HTTP() {
 		if i < len(svc.seen) {
 			verifapi.Assert(svc.seen[i] == sent[i], "c17.http-messages-handled-in-order")
 		}
+	}
+}
+
+// VerifC17HTTPConcurrent: several goroutines call through one HTTPService at
+// once (as the agent's keep-alive loop and its RPC handlers do) over a
+// fault-free in-process network: every message arrives intact and exactly
+// once, every caller gets its own reply, and the callers share no
+// unsynchronised state (data race = violation).
+func VerifC17HTTPConcurrent() {
+	svc := &VerifHTTPSvc{}
+	srv := &HTTPServer{}
+	if err := srv.Server.Register("", svc); err != nil {
+		verifapi.Unreachable("c17.http-register")
+	}
+	rt := &verifRT{server: srv, reliable: true}
+	client := &HTTPService{Endpoint: "http://pool.invalid/", HTTPClient: http.Client{Transport: rt}}
+	n := verifapi.Param("callers", 2)
+	toks := make([]int64, n)
+	type res struct {
+		i   int
+		got int64
+		err error
+	}
+	done := make(chan res, n)
+	for i := 0; i < n; i++ {
+		toks[i] = verifapi.Int64(fmt.Sprint("token", i))
+		go func(i int) {
+			var got int64
+			err := client.Call(context.Background(), &got, "echo", toks[i])
+			done <- res{i, got, err}
+		}(i)
+	}
+	for k := 0; k < n; k++ {
+		r := <-done
+		verifapi.Assert(r.err == nil, "c17.http-fault-free-call-succeeds")
+		verifapi.Assert(r.got == toks[r.i], "c17.http-reply-is-own-and-intact")
+	}
+	verifapi.Reach("c17.http.concurrent")
+	verifapi.Assert(len(svc.seen) == n, "c17.http-no-message-handled-twice")
+	for i := 0; i < n; i++ {
+		cnt := 0
+		for _, x := range svc.seen {
+			if x == toks[i] {
+				cnt++
+			}
+		}
+		verifapi.Assert(cnt >= 1, "c17.http-message-intact")
 	}
 }
